@@ -73,12 +73,12 @@ h_ints_to_bvf!(c11_q_ints_to_f16x2, 4, Bvf<u16, 2>);
 h_ints_to_bvf!(c11_q_ints_to_f32x2, 4, Bvf<u32, 2>);
 h_ints_to_bvf!(c11_q_ints_to_f64x2, 4, Bvf<u64, 2>);
 h_ints_to_bvf!(c11_q_ints_to_f64x3, 5, Bvf<u64, 3>);
-h_ints_to_bvf!(c11_t_ints_to_f8x4, 6, Bvf<u8, 4>);
-h_ints_to_bvf!(c11_t_ints_to_f32x1, 3, Bvf<u32, 1>);
-h_ints_to_bvf!(c11_t_ints_to_f64x1, 3, Bvf<u64, 1>);
-h_ints_to_bvf!(c11_t_ints_to_fuszx2, 4, Bvf<usize, 2>);
-h_ints_to_bvf!(c11_t_ints_to_f128x1, 3, Bvf<u128, 1>);
-h_ints_to_bvf!(c11_t_ints_to_f128x2, 4, Bvf<u128, 2>);
+h_ints_to_bvf!(c11_q_ints_to_f8x4, 6, Bvf<u8, 4>);
+h_ints_to_bvf!(c11_q_ints_to_f32x1, 3, Bvf<u32, 1>);
+h_ints_to_bvf!(c11_q_ints_to_f64x1, 3, Bvf<u64, 1>);
+h_ints_to_bvf!(c11_q_ints_to_fuszx2, 4, Bvf<usize, 2>);
+h_ints_to_bvf!(c11_q_ints_to_f128x1, 3, Bvf<u128, 1>);
+h_ints_to_bvf!(c11_q_ints_to_f128x2, 4, Bvf<u128, 2>);
 
 /// One native type into `Bvd` (one allocation per harness: one form).
 macro_rules! h_int_to_bvd {
@@ -113,9 +113,9 @@ h_int_to_bvd!(c11_q_usize_to_bvd, 4, usize, byval);
 h_int_to_bvd!(c11_q_u8ref_to_bvd, 10, u8, byref);
 h_int_to_bvd!(c11_q_u64ref_to_bvd, 4, u64, byref);
 h_int_to_bvd!(c11_q_u128ref_to_bvd, 4, u128, byref);
-h_int_to_bvd!(c11_t_u16ref_to_bvd, 6, u16, byref);
-h_int_to_bvd!(c11_t_u32ref_to_bvd, 4, u32, byref);
-h_int_to_bvd!(c11_t_usizeref_to_bvd, 4, usize, byref);
+h_int_to_bvd!(c11_q_u16ref_to_bvd, 6, u16, byref);
+h_int_to_bvd!(c11_q_u32ref_to_bvd, 4, u32, byref);
+h_int_to_bvd!(c11_q_usizeref_to_bvd, 4, usize, byref);
 
 /// One native type into `Bv`, both forms (every native width fits the inline storage).
 macro_rules! int_to_bv {
@@ -218,12 +218,12 @@ h_slice_to_bvf!(c11_q_slice_u32_to_f16x2, 6, Bvf<u16, 2>, u32);
 h_slice_to_bvf!(c11_q_slice_u32_to_f64x2, 6, Bvf<u64, 2>, u32);
 h_slice_to_bvf!(c11_q_slice_u64_to_f64x2, 6, Bvf<u64, 2>, u64);
 h_slice_to_bvf!(c11_q_slice_u128_to_f64x2, 6, Bvf<u64, 2>, u128);
-h_slice_to_bvf!(c11_t_slice_u8_to_f64x2, 6, Bvf<u64, 2>, u8);
-h_slice_to_bvf!(c11_t_slice_u64_to_f8x3, 10, Bvf<u8, 3>, u64);
-h_slice_to_bvf!(c11_t_slice_u64_to_f64x3, 6, Bvf<u64, 3>, u64);
-h_slice_to_bvf!(c11_t_slice_usize_to_f64x2, 6, Bvf<u64, 2>, usize);
-h_slice_to_bvf!(c11_t_slice_u16_to_f32x2, 6, Bvf<u32, 2>, u16);
-h_slice_to_bvf!(c11_t_slice_u64_to_f128x2, 6, Bvf<u128, 2>, u64);
+h_slice_to_bvf!(c11_q_slice_u8_to_f64x2, 6, Bvf<u64, 2>, u8);
+h_slice_to_bvf!(c11_q_slice_u64_to_f8x3, 10, Bvf<u8, 3>, u64);
+h_slice_to_bvf!(c11_q_slice_u64_to_f64x3, 6, Bvf<u64, 3>, u64);
+h_slice_to_bvf!(c11_q_slice_usize_to_f64x2, 6, Bvf<u64, 2>, usize);
+h_slice_to_bvf!(c11_q_slice_u16_to_f32x2, 6, Bvf<u32, 2>, u16);
+h_slice_to_bvf!(c11_q_slice_u64_to_f128x2, 6, Bvf<u128, 2>, u64);
 
 /// One concrete slice length into `Bvd` or `Bv` (the conversion allocates by length).
 macro_rules! h_slice_to_heap {
@@ -253,11 +253,11 @@ h_slice_to_heap!(c11_q_slice3_u32_to_bvd, 5, Bvd, u32, 3);
 h_slice_to_heap!(c11_q_slice1_u64_to_bvd, 4, Bvd, u64, 1);
 h_slice_to_heap!(c11_q_slice3_u64_to_bvd, 5, Bvd, u64, 3);
 h_slice_to_heap!(c11_q_slice2_u128_to_bvd, 4, Bvd, u128, 2);
-h_slice_to_heap!(c11_t_slice4_u8_to_bvd, 6, Bvd, u8, 4);
-h_slice_to_heap!(c11_t_slice4_u64_to_bvd, 6, Bvd, u64, 4);
-h_slice_to_heap!(c11_t_slice1_u128_to_bvd, 4, Bvd, u128, 1);
-h_slice_to_heap!(c11_t_slice2_usize_to_bvd, 4, Bvd, usize, 2);
-h_slice_to_heap!(c11_t_slice0_u64_to_bvd, 4, Bvd, u64, 0);
+h_slice_to_heap!(c11_q_slice4_u8_to_bvd, 6, Bvd, u8, 4);
+h_slice_to_heap!(c11_q_slice4_u64_to_bvd, 6, Bvd, u64, 4);
+h_slice_to_heap!(c11_q_slice1_u128_to_bvd, 4, Bvd, u128, 1);
+h_slice_to_heap!(c11_q_slice2_usize_to_bvd, 4, Bvd, usize, 2);
+h_slice_to_heap!(c11_q_slice0_u64_to_bvd, 4, Bvd, u64, 0);
 // Bv: inline up to 128 bits, heap above
 h_slice_to_heap!(c11_q_slice0_u8_to_bv, 4, Bv, u8, 0);
 h_slice_to_heap!(c11_q_slice3_u8_to_bv, 5, Bv, u8, 3);
@@ -265,8 +265,8 @@ h_slice_to_heap!(c11_q_slice2_u64_to_bv, 4, Bv, u64, 2);
 h_slice_to_heap!(c11_q_slice3_u64_to_bv, 5, Bv, u64, 3);
 h_slice_to_heap!(c11_q_slice1_u128_to_bv, 4, Bv, u128, 1);
 h_slice_to_heap!(c11_q_slice2_u128_to_bv, 4, Bv, u128, 2);
-h_slice_to_heap!(c11_t_slice4_u32_to_bv, 6, Bv, u32, 4);
-h_slice_to_heap!(c11_t_slice3_u16_to_bv, 5, Bv, u16, 3);
+h_slice_to_heap!(c11_q_slice4_u32_to_bv, 6, Bv, u32, 4);
+h_slice_to_heap!(c11_q_slice3_u16_to_bv, 5, Bv, u16, 3);
 
 // =============================================================================================
 // vector -> integer
@@ -337,14 +337,14 @@ h_bvf_to_ints!(c11_q_f16x2_to_narrow, 4, f16x2(anylen(32)), u8, u16, u32);
 h_bvf_to_ints!(c11_q_f16x2_to_wide, 10, f16x2(anylen(32)), u64, u128, usize);
 h_bvf_to_ints!(c11_q_f64x2_to_narrow, 4, f64x2(anylen(128)), u8, u16, u32);
 h_bvf_to_ints!(c11_q_f64x2_to_wide, 4, f64x2(anylen(128)), u64, u128, usize);
-h_bvf_to_ints!(c11_t_f8x3_to_wide, 18, f8x3(anylen(24)), u64, u128, usize);
-h_bvf_to_ints!(c11_t_f32x2_to_narrow, 4, f32x2(anylen(64)), u8, u16, u32);
-h_bvf_to_ints!(c11_t_f32x2_to_wide, 6, f32x2(anylen(64)), u64, u128, usize);
+h_bvf_to_ints!(c11_q_f8x3_to_wide, 18, f8x3(anylen(24)), u64, u128, usize);
+h_bvf_to_ints!(c11_q_f32x2_to_narrow, 4, f32x2(anylen(64)), u8, u16, u32);
+h_bvf_to_ints!(c11_q_f32x2_to_wide, 6, f32x2(anylen(64)), u64, u128, usize);
 h_bvf_to_ints!(c11_t_f64x3_to_narrow, 5, f64x3(anylen(192)), u8, u16, u32);
 h_bvf_to_ints!(c11_t_f64x3_to_wide, 5, f64x3(anylen(192)), u64, u128, usize);
 h_bvf_to_ints!(c11_t_f128x2_to_narrow, 4, f128x2(anylen(256)), u8, u16, u32);
 h_bvf_to_ints!(c11_t_f128x2_to_wide, 4, f128x2(anylen(256)), u64, u128, usize);
-h_bvf_to_ints!(c11_t_fuszx2_to_wide, 4, fuszx2(anylen(128)), u64, u128, usize);
+h_bvf_to_ints!(c11_q_fuszx2_to_wide, 4, fuszx2(anylen(128)), u64, u128, usize);
 
 /// A heap source: all six integer types by reference (no allocation involved).
 macro_rules! h_heap_to_ints_ref {
@@ -371,7 +371,7 @@ h_heap_to_ints_ref!(c11_q_bvd3_to_ints, 5, bvd3(anylen(192)));
 h_heap_to_ints_ref!(c11_q_bvdyn2_to_ints, 4, bvdyn2(anylen(128)));
 h_heap_to_ints_ref!(c11_q_bvdyn3_to_ints, 5, bvdyn3(anylen(192)));
 h_heap_to_ints_ref!(c11_t_bvd4_to_ints, 6, bvd4(anylen(256)));
-h_heap_to_ints_ref!(c11_t_bvdyn1_to_ints, 4, bvdyn1(anylen(64)));
+h_heap_to_ints_ref!(c11_q_bvdyn1_to_ints, 4, bvdyn1(anylen(64)));
 
 // `Bvd` with no storage at all (`len == 0`, zero words).
 harness!(c11_q_bvd0_to_ints, 3, {
@@ -409,8 +409,8 @@ h_heap_to_int_val!(c11_q_bvd3_into_u128, 5, bvd3(anylen(192)), u128);
 h_heap_to_int_val!(c11_q_bvd2_into_usize, 4, bvd2(anylen(128)), usize);
 h_heap_to_int_val!(c11_q_bvdyn2_into_u64, 4, bvdyn2(anylen(128)), u64);
 h_heap_to_int_val!(c11_q_bvdyn3_into_u128, 5, bvdyn3(anylen(192)), u128);
-h_heap_to_int_val!(c11_t_bvdyn2_into_u8, 4, bvdyn2(anylen(128)), u8);
-h_heap_to_int_val!(c11_t_bvd1_into_u32, 4, bvd1(anylen(64)), u32);
+h_heap_to_int_val!(c11_q_bvdyn2_into_u8, 4, bvdyn2(anylen(128)), u8);
+h_heap_to_int_val!(c11_q_bvd1_into_u32, 4, bvd1(anylen(64)), u32);
 
 // `Bv` in inline mode: by reference (all six) and by value (one type per harness, `Bv` is
 // not `Copy`).
@@ -418,9 +418,9 @@ h_heap_to_ints_ref!(c11_q_bvfix_to_ints, 4, bvfix(anylen(128)));
 h_heap_to_int_val!(c11_q_bvfix_into_u8, 4, bvfix(anylen(128)), u8);
 h_heap_to_int_val!(c11_q_bvfix_into_u64, 4, bvfix(anylen(128)), u64);
 h_heap_to_int_val!(c11_q_bvfix_into_u128, 4, bvfix(anylen(128)), u128);
-h_heap_to_int_val!(c11_t_bvfix_into_u16, 4, bvfix(anylen(128)), u16);
-h_heap_to_int_val!(c11_t_bvfix_into_u32, 4, bvfix(anylen(128)), u32);
-h_heap_to_int_val!(c11_t_bvfix_into_usize, 4, bvfix(anylen(128)), usize);
+h_heap_to_int_val!(c11_q_bvfix_into_u16, 4, bvfix(anylen(128)), u16);
+h_heap_to_int_val!(c11_q_bvfix_into_u32, 4, bvfix(anylen(128)), u32);
+h_heap_to_int_val!(c11_q_bvfix_into_usize, 4, bvfix(anylen(128)), usize);
 
 // =============================================================================================
 // Bit <-> bool / integers
@@ -463,5 +463,5 @@ harness!(c11_q_bit_conversions, 2, {
 h_slice_to_bvf!(c11_q_slice_u8_to_f16x1, 6, Bvf<u16, 1>, u8);
 h_slice_to_bvf!(c11_q_slice_u16_to_f32x1, 6, Bvf<u32, 1>, u16);
 h_slice_to_bvf!(c11_q_slice_u32_to_f64x1, 6, Bvf<u64, 1>, u32);
-h_slice_to_bvf!(c11_t_slice_u64_to_f128x1, 6, Bvf<u128, 1>, u64);
-h_slice_to_bvf!(c11_t_slice_u8_to_f32x1, 6, Bvf<u32, 1>, u8);
+h_slice_to_bvf!(c11_q_slice_u64_to_f128x1, 6, Bvf<u128, 1>, u64);
+h_slice_to_bvf!(c11_q_slice_u8_to_f32x1, 6, Bvf<u32, 1>, u8);
